@@ -127,6 +127,18 @@ def run(ctx):
                 md = _md('k', r1)
                 md.update(_md('j', r2))
                 judge(ctx, matcher, {'k': f1, 'j': f2}, md, 'core-2key')
+    # the same list OBJECT as the alternatives of two keys, and twice inside one alternative list (a constant reused by the caller)
+    for alts in [[a] for a in ATOMS] + [['a*', 5], [None, 'a'], [op('<', 5), 'a[bc]'], [[5], 'a']]:
+        for r1 in RECORDED:
+            for r2 in second_vals + ['ab', 7]:
+                idx += 1
+                if not ctx.mine(idx):
+                    continue
+                md = _md('k', r1)
+                md.update(_md('j', r2))
+                judge(ctx, matcher, {'k': alts, 'j': alts}, md, 'core-shared-list')
+                judge(ctx, matcher, {'k': [alts, alts], 'j': [[alts], alts]}, md, 'core-shared-nested-list')
+                ctx.count('filters_sharing_a_list_object', 2)
     ctx.note('exhaustive_core_cases', idx)
     ctx.exhaustive = True  # of the stated core universe; random part below goes beyond
 
@@ -136,6 +148,11 @@ def run(ctx):
     for _ in range(n):
         keys = rng.sample(['k', 'j', 'm'], rng.randrange(1, 4))
         flt = {k: gen_filter_value(rng) for k in keys}
+        if len(keys) > 1 and rng.random() < 0.15:
+            shared = gen_filter_value(rng)
+            for k in keys:
+                flt[k] = shared if rng.random() < 0.6 else [shared, gen_filter_value(rng, 1)]
+            ctx.count('filters_sharing_a_list_object')
         md = {}
         for k in ['k', 'j', 'm', 'z']:
             rv = gen_recorded(rng)
@@ -230,11 +247,22 @@ def listing_case(ctx, rng, li):
             md['cls'] = Obj          # a class reference, like the operation class the recorder stores
         if rng.random() < 0.2:
             md['t'] = (1, 'a')
+        if rng.random() < 0.35:
+            # the recorder stores live objects: the extractor may return the very list an intercepted input returned, or put one
+            # list under two keys - the stored recording then holds that object more than once
+            L = rng.choice([[1], ['a'], [rng.randrange(3)], ['ab', 5]])
+            for k in rng.sample(['k', 'j'], rng.randrange(1, 3)):
+                md[k] = L
+            md['__shared_with_data__'] = L
         mds.append(md)
     with open_box(kind, prefix=prefix) as box:
         saved = []
         for md in mds:
             rec = box.cassette.create_new_recording('Cat')
+            L = md.pop('__shared_with_data__', None)
+            if L is not None:
+                rec.set_data('input: rows args=[], kwargs=[]', {'value': [L, {'again': L}]})
+                ctx.count('listings_with_metadata_object_shared_with_data')
             rec.add_metadata(md)
             box.cassette.save_recording(rec)
             view = json.loads(encode(md, unpicklable=True)) if kind == 's3' else md
